@@ -51,6 +51,11 @@ end Compare
 underlying types of all declarations. -/
 def SupportedCmp (env : Env) (T : Ty) : Bool := Compare.okTy env T && Compare.envOk env
 
+/-- append two `snil`/`scons` spines (the terminator of the first is dropped) -/
+def Val.sapp : Val → Val → Val
+  | .scons h t, s => .scons h (Val.sapp t s)
+  | _, s => s
+
 namespace Cmp
 open Spec Compare
 
@@ -824,6 +829,905 @@ theorem transOK {env : Env} (hf : env.flagsOk = true) (x : Val) : TransOK env x 
       have := sizeOf_lt_of_mem (mem_sortEntries.1 he)
       have := sizeOf_evalue_le e
       simp; omega
+
+/-! ## on comparable types the specification is the derived key order -/
+
+theorem cmpVal_eq_cmpKey_aux {env : Env} (hf : env.flagsOk = true) (k : Val) :
+    (∀ K k', canEqual env K = true → hasType env K k = true → hasType env K k' = true →
+      cmpVal k k' = cmpKey k k') ∧
+    (∀ E ys, canEqual env E = true → allHaveType env E k = true → allHaveType env E ys = true →
+      k.slen = ys.slen → cmpSeq k ys = cmpKey k ys) ∧
+    (∀ fs ys, canEqual env fs = true → fieldsHaveType env fs k = true →
+      fieldsHaveType env fs ys = true → cmpSeq k ys = cmpKey k ys) := by
+  have top : ∀ (k : Val),
+      (∀ E xs ys, k = .arr xs → canEqual env E = true → allHaveType env E xs = true →
+        allHaveType env E ys = true → xs.slen = ys.slen → cmpSeq xs ys = cmpKey xs ys) →
+      (∀ fs xs ys, k = .struct xs → canEqual env fs = true → fieldsHaveType env fs xs = true →
+        fieldsHaveType env fs ys = true → cmpSeq xs ys = cmpKey xs ys) →
+      ∀ K k', canEqual env K = true → hasType env K k = true → hasType env K k' = true →
+        cmpVal k k' = cmpKey k k' := by
+    intro k hA hS K k' hc hk hk'
+    have hc' := canEqual_under hf hc
+    rcases hasType_false_of_under hk with ⟨b, hU⟩ | ⟨R, hU⟩ | ⟨E, hU⟩ | ⟨n, E, hU⟩ | ⟨fs, hU⟩ |
+        ⟨K', V, hU⟩
+    · rw [hasType_basic hU] at hk hk'; exact cmpVal_eq_cmpKey_of_basic hk hk'
+    · rw [hU] at hc'; simp [canEqual] at hc'
+    · rw [hU] at hc'; simp [canEqual] at hc'
+    · obtain ⟨xs, rfl, hl, hxs⟩ := (hasType_array hU _).1 hk
+      obtain ⟨ys, rfl, hl', hys⟩ := (hasType_array hU _).1 hk'
+      rw [hU] at hc'
+      simp only [cmpVal_arr, cmpKey]
+      exact hA E xs ys rfl (by simpa [canEqual] using hc') hxs hys (by omega)
+    · obtain ⟨xs, rfl, hxs⟩ := (hasType_struct hU _).1 hk
+      obtain ⟨ys, rfl, hys⟩ := (hasType_struct hU _).1 hk'
+      rw [hU] at hc'
+      simp only [cmpVal_struct, cmpKey]
+      exact hS fs xs ys rfl (by simpa [canEqual] using hc') hxs hys
+    · rw [hU] at hc'; simp [canEqual] at hc'
+  induction k with
+  | scons h t ih1 ih2 =>
+    refine ⟨top _ (by simp) (by simp), ?_, ?_⟩
+    · intro E ys hc hk hys hl
+      cases ys <;> simp [slen] at hl
+      simp only [allHaveType_scons, Bool.and_eq_true] at hk hys
+      rw [cmpSeq_scons, cmpKey_scons, ih1.1 E _ hc hk.1 hys.1,
+        ih2.2.1 E _ hc hk.2 hys.2 (by simpa using hl)]
+    · intro fs ys hc hk hys
+      rcases fieldsHaveType_inv hk with ⟨_, h⟩ | ⟨F, rest, a, r, rfl, h, ha, hr⟩
+      · cases h
+      · cases h
+        rcases fieldsHaveType_inv hys with ⟨h, _⟩ | ⟨F', rest', b, s, h, rfl, hb, hs⟩
+        · cases h
+        · cases h
+          simp only [Bool.and_eq_true, canEqual] at hc
+          rw [cmpSeq_scons, cmpKey_scons, ih1.1 _ _ hc.1 ha hb, ih2.2.2 _ _ hc.2 hr hs]
+  | snil =>
+    refine ⟨top _ (by simp) (by simp), ?_, ?_⟩
+    · intro E ys _ _ hys _
+      rcases allHaveType_inv hys with rfl | ⟨_, _, rfl, _⟩
+      · simp [cmpSeq_snil, cmpKey]
+      · simp_all [slen]
+    · intro fs ys _ hk hys
+      rcases fieldsHaveType_inv hk with ⟨rfl, _⟩ | ⟨F, rest, a, r, _, h, _⟩
+      · rcases fieldsHaveType_inv hys with ⟨_, rfl⟩ | ⟨F', rest', b, s, h, _⟩
+        · simp [cmpSeq_snil, cmpKey]
+        · cases h
+      · cases h
+  | arr xs ih =>
+    refine ⟨top _ (fun E xs' ys h => by cases h; exact ih.2.1 E ys) (by simp), ?_, ?_⟩
+    · intro E ys _ hk; rcases allHaveType_inv hk with h | ⟨_, _, h, _⟩ <;> cases h
+    · intro fs ys _ hk; rcases fieldsHaveType_inv hk with ⟨_, h⟩ | ⟨_, _, _, _, _, h, _⟩ <;> cases h
+  | struct xs ih =>
+    refine ⟨top _ (by simp) (fun fs xs' ys h => by cases h; exact ih.2.2 fs ys), ?_, ?_⟩
+    · intro E ys _ hk; rcases allHaveType_inv hk with h | ⟨_, _, h, _⟩ <;> cases h
+    · intro fs ys _ hk; rcases fieldsHaveType_inv hk with ⟨_, h⟩ | ⟨_, _, _, _, _, h, _⟩ <;> cases h
+  | _ =>
+    refine ⟨top _ (by simp) (by simp), ?_, ?_⟩
+    · intro E ys _ hk; rcases allHaveType_inv hk with h | ⟨_, _, h, _⟩ <;> cases h
+    · intro fs ys _ hk; rcases fieldsHaveType_inv hk with ⟨_, h⟩ | ⟨_, _, _, _, _, h, _⟩ <;> cases h
+
+/-- **the derived order of a comparable (map key) type is `cmpKey`**: on values of a `canEqual`
+type the value-directed specification coincides with the order the model sorts map keys by -/
+theorem cmpVal_eq_cmpKey {env : Env} (hf : env.flagsOk = true) {K : Ty} {k k' : Val}
+    (hc : canEqual env K = true) (hk : hasType env K k = true) (hk' : hasType env K k' = true) :
+    cmpVal k k' = cmpKey k k' :=
+  (cmpVal_eq_cmpKey_aux hf k).1 K k' hc hk hk'
+
+/-! ## unfolding structural equality -/
+
+theorem structEq_basic {env : Env} {T : Ty} {b : Basic} (hU : env.under T = .basic b) (x y : Val) :
+    structEq env T x y = leafEq x y := by
+  rw [structEq.eq_def, hU]
+
+theorem structEq_ptr {env : Env} {T R : Ty} (hU : env.under T = .ptr R) (a : Nat) (v : Val)
+    (b : Nat) (w : Val) : structEq env T (.ptr a v) (.ptr b w) = structEq env R v w := by
+  rw [structEq.eq_def, hU]
+
+theorem structEq_slice {env : Env} {T E : Ty} (hU : env.under T = .slice E) (a sp : Nat) (xs : Val)
+    (b sp' : Nat) (ys : Val) :
+    structEq env T (.slice a sp xs) (.slice b sp' ys) = seqEq env E xs ys := by
+  rw [structEq.eq_def, hU]
+
+theorem structEq_array {env : Env} {T E : Ty} {n : Nat} (hU : env.under T = .array n E)
+    (xs ys : Val) : structEq env T (.arr xs) (.arr ys) = seqEq env E xs ys := by
+  rw [structEq.eq_def, hU]
+
+theorem structEq_struct {env : Env} {T fs : Ty} (hU : env.under T = .struct fs)
+    (xs ys : Val) : structEq env T (.struct xs) (.struct ys) = fieldsEq env fs xs ys := by
+  rw [structEq.eq_def, hU]
+
+theorem structEq_map {env : Env} {T K V : Ty} (hU : env.under T = .map K V) (a : Nat) (xs : Val)
+    (b : Nat) (ys : Val) :
+    structEq env T (.map a xs) (.map b ys) = (xs.slen == ys.slen && entriesIn env K V xs ys) := by
+  rw [structEq.eq_def, hU]
+
+theorem structEq_nil_nil {env : Env} {T : Ty}
+    (hU : (∃ R, env.under T = .ptr R) ∨ (∃ E, env.under T = .slice E) ∨
+      (∃ K V, env.under T = .map K V)) : structEq env T .nilv .nilv = true := by
+  rcases hU with ⟨R, hU⟩ | ⟨E, hU⟩ | ⟨K, V, hU⟩ <;> rw [structEq.eq_def, hU]
+
+theorem structEq_nil_left {env : Env} {T : Ty} {y : Val} (hy : y ≠ .nilv) :
+    structEq env T .nilv y = false := by
+  rw [structEq.eq_def]; split <;> simp_all [leafEq]
+
+theorem structEq_nil_right {env : Env} {T : Ty} {x : Val} (hx : x ≠ .nilv) :
+    structEq env T x .nilv = false := by
+  rw [structEq.eq_def]; split <;> simp_all [leafEq]
+
+theorem seqEq_snil (env : Env) (E : Ty) : seqEq env E .snil .snil = true := by rw [seqEq]
+
+theorem seqEq_scons (env : Env) (E : Ty) (a r b s : Val) :
+    seqEq env E (.scons a r) (.scons b s) = (structEq env E a b && seqEq env E r s) := by
+  rw [seqEq]
+
+theorem fieldsEq_nil (env : Env) : fieldsEq env .fnil .snil .snil = true := by rw [fieldsEq]
+
+theorem fieldsEq_cons (env : Env) (F rest : Ty) (a r b s : Val) :
+    fieldsEq env (.fcons F rest) (.scons a r) (.scons b s) =
+      (structEq env F a b && fieldsEq env rest r s) := by
+  rw [fieldsEq]
+
+theorem entriesIn_snil (env : Env) (K V : Ty) (ys : Val) : entriesIn env K V .snil ys = true := by
+  rw [entriesIn]
+
+theorem entriesIn_scons (env : Env) (K V : Ty) (k v r ys : Val) :
+    entriesIn env K V (.scons (.pair k v) r) ys =
+      (valueAt env K V k v ys && entriesIn env K V r ys) := by
+  rw [entriesIn]
+
+theorem valueAt_scons (env : Env) (K V : Ty) (k v k' w s : Val) :
+    valueAt env K V k v (.scons (.pair k' w) s) =
+      ((structEq env K k k' && structEq env V v w) || valueAt env K V k v s) := by
+  rw [valueAt]
+
+theorem valueAt_snil (env : Env) (K V : Ty) (k v : Val) : valueAt env K V k v .snil = false := by
+  rw [valueAt.eq_def]
+
+/-- `entriesIn`, by membership -/
+theorem entriesIn_iff_mem {env : Env} {K V : Ty} {xs : Val} (hx : isEntries xs = true) (ys : Val) :
+    entriesIn env K V xs ys = true ↔
+      ∀ e ∈ xs.toList, valueAt env K V (ekey e) (evalue e) ys = true := by
+  induction xs with
+  | scons e r _ ihr =>
+    cases e <;> simp [isEntries] at hx
+    simp [entriesIn_scons, toList, ekey, evalue, ihr hx]
+  | snil => simp [entriesIn_snil, toList]
+  | _ => simp [isEntries] at hx
+
+/-- `valueAt`, by membership -/
+theorem valueAt_iff_mem {env : Env} {K V : Ty} {k v ys : Val} (hy : isEntries ys = true) :
+    valueAt env K V k v ys = true ↔
+      ∃ e' ∈ ys.toList, structEq env K k (ekey e') = true ∧ structEq env V v (evalue e') = true := by
+  induction ys with
+  | scons e r _ ihr =>
+    cases e <;> simp [isEntries] at hy
+    simp [valueAt_scons, toList, ekey, evalue, ihr hy]
+  | snil => simp [valueAt_snil, toList]
+  | _ => simp [isEntries] at hy
+
+theorem leafEq_eq_goEq_of_basic {b : Basic} {x y : Val} (hx : basicHasType b x = true)
+    (hy : basicHasType b y = true) : leafEq x y = goEq x y := by
+  cases b <;> cases x <;> simp [basicHasType] at hx <;> cases y <;> simp [basicHasType] at hy <;>
+    simp [leafEq, goEq]
+
+/-! ## `cmpVal x y = 0` is structural equality -/
+
+/-- at `x`: comparing 0 is structural equality, against every NaN-free partner of the same type -/
+def ZeroOK (env : Env) (x : Val) : Prop :=
+  ∀ T y, hasType env T x = true → hasType env T y = true → nanFree x = true → nanFree y = true →
+    (cmpVal x y = 0 ↔ structEq env T x y = true)
+
+theorem seqEq_inv {env : Env} {E : Ty} {xs ys : Val} (h : seqEq env E xs ys = true) :
+    (xs = .snil ∧ ys = .snil) ∨ ∃ a r b s, xs = .scons a r ∧ ys = .scons b s ∧
+      structEq env E a b = true ∧ seqEq env E r s = true := by
+  rw [seqEq.eq_def] at h
+  split at h
+  · exact .inl ⟨rfl, rfl⟩
+  · simp only [Bool.and_eq_true] at h; exact .inr ⟨_, _, _, _, rfl, rfl, h⟩
+  · simp at h
+
+theorem seqEq_slen {env : Env} {E : Ty} (xs : Val) :
+    ∀ ys, seqEq env E xs ys = true → xs.slen = ys.slen := by
+  induction xs with
+  | scons a r _ ihr =>
+    intro ys h
+    rcases seqEq_inv h with ⟨h1, _⟩ | ⟨a', r', b, s, h1, rfl, _, hs⟩
+    · cases h1
+    · cases h1
+      have := ihr s hs
+      simp only [slen]; omega
+  | snil =>
+    intro ys h
+    rcases seqEq_inv h with ⟨_, rfl⟩ | ⟨a', r', b, s, h1, _⟩
+    · rfl
+    · cases h1
+  | _ =>
+    intro ys h
+    rcases seqEq_inv h with ⟨h1, _⟩ | ⟨a', r', b, s, h1, _⟩ <;> cases h1
+
+theorem cmpSeq_zero_iff_elems {env : Env} (xs : Val) (ih : ∀ a ∈ xs.toList, ZeroOK env a) :
+    ∀ E ys, allHaveType env E xs = true → allHaveType env E ys = true → xs.slen = ys.slen →
+      nanFree xs = true → nanFree ys = true →
+      (cmpSeq xs ys = 0 ↔ seqEq env E xs ys = true) := by
+  induction xs with
+  | scons a r _ ihr =>
+    intro E ys hx hy hl nx ny
+    rcases allHaveType_inv hy with rfl | ⟨b, s, rfl, hb, hs⟩
+    · simp [slen] at hl
+    · simp only [allHaveType_scons, Bool.and_eq_true] at hx
+      simp only [nanFree, Bool.and_eq_true] at nx ny
+      rw [cmpSeq_scons, lex_eq_zero, seqEq_scons, Bool.and_eq_true,
+        ih a (by simp [toList]) E b hx.1 hb nx.1 ny.1,
+        ihr (fun a' ha' => ih a' (by simp [toList, ha'])) E s hx.2 hs (by simpa [slen] using hl)
+          nx.2 ny.2]
+  | snil =>
+    intro E ys _ hy hl _ _
+    rcases allHaveType_inv hy with rfl | ⟨b, s, rfl, hb, hs⟩
+    · simp [cmpSeq_snil, seqEq_snil]
+    · simp [slen] at hl
+  | _ =>
+    intro E ys hx
+    rcases allHaveType_inv hx with h | ⟨_, _, h, _⟩ <;> cases h
+
+theorem cmpSeq_zero_iff_fields {env : Env} (xs : Val) (ih : ∀ a ∈ xs.toList, ZeroOK env a) :
+    ∀ fs ys, fieldsHaveType env fs xs = true → fieldsHaveType env fs ys = true →
+      nanFree xs = true → nanFree ys = true →
+      (cmpSeq xs ys = 0 ↔ fieldsEq env fs xs ys = true) := by
+  induction xs with
+  | scons a r _ ihr =>
+    intro fs ys hx hy nx ny
+    rcases fieldsHaveType_inv hx with ⟨_, h⟩ | ⟨F, rest, a', r', rfl, h, ha, hr⟩
+    · cases h
+    cases h
+    rcases fieldsHaveType_inv hy with ⟨h, _⟩ | ⟨F', rest', b, s, h, rfl, hb, hs⟩
+    · cases h
+    cases h
+    simp only [nanFree, Bool.and_eq_true] at nx ny
+    rw [cmpSeq_scons, lex_eq_zero, fieldsEq_cons, Bool.and_eq_true,
+      ih a (by simp [toList]) F b ha hb nx.1 ny.1,
+      ihr (fun a' ha' => ih a' (by simp [toList, ha'])) rest s hr hs nx.2 ny.2]
+  | snil =>
+    intro fs ys hx hy _ _
+    rcases fieldsHaveType_inv hx with ⟨rfl, _⟩ | ⟨_, _, _, _, _, h, _⟩
+    · rcases fieldsHaveType_inv hy with ⟨_, rfl⟩ | ⟨_, _, _, _, h, _⟩
+      · simp [cmpSeq_snil, fieldsEq_nil]
+      · cases h
+    · cases h
+  | _ =>
+    intro fs ys hx
+    rcases fieldsHaveType_inv hx with ⟨_, h⟩ | ⟨_, _, _, _, _, h, _⟩ <;> cases h
+
+/-- `cmpEntries` is 0 iff the two spines agree position-wise: `==` keys and values comparing 0 -/
+theorem cmpEntries_zero_iff_zip {P : Val → Prop} (hP : KeySet P) (xs : Val) :
+    ∀ ys, KeysIn P xs → KeysIn P ys → xs.slen = ys.slen →
+      (cmpEntries xs ys = 0 ↔
+        ∀ p ∈ List.zip xs.toList ys.toList,
+          keyEq p.1 p.2 ∧ cmpVal (evalue p.1) (evalue p.2) = 0) := by
+  induction xs with
+  | scons e r _ ihr =>
+    intro ys hx hy hl
+    obtain ⟨k, v, rfl⟩ : ∃ k v, e = .pair k v := exists_pair_of_mem hx.1 (by simp [toList])
+    cases ys with
+    | scons e' s =>
+      obtain ⟨k', w, rfl⟩ : ∃ k' w, e' = .pair k' w := exists_pair_of_mem hy.1 (by simp [toList])
+      obtain ⟨pk, hr⟩ := keysIn_scons.1 hx
+      obtain ⟨pk', hs⟩ := keysIn_scons.1 hy
+      rw [cmpEntries_scons, entryHead_eq_lex hP pk pk', lex_eq_zero, lex_eq_zero,
+        hP.eq_iff pk pk', ihr s hr hs (by simpa [slen] using hl)]
+      simp [toList, keyEq, ekey, evalue]
+    | _ => simp [slen] at hl
+  | _ =>
+    intro ys _ _ _
+    rw [cmpEntries_of_not_entry_left _ (by simp)]
+    simp [toList]
+
+theorem forall_zip_of_keysAgreeL (l1 l2 : List Val) (h : keysAgreeL l1 l2) :
+    ∀ p ∈ List.zip l1 l2, keyEq p.1 p.2 := by
+  induction l1 generalizing l2 with
+  | nil => simp
+  | cons a r ih =>
+    cases l2 with
+    | nil => simp
+    | cons b s =>
+      simp only [keysAgreeL] at h
+      simp only [List.zip_cons_cons, List.mem_cons, forall_eq_or_imp]
+      exact ⟨h.1, ih s h.2⟩
+
+theorem exists_zip_of_mem_left {l1 l2 : List Val} (hl : l1.length = l2.length) {a : Val}
+    (ha : a ∈ l1) : ∃ b, (a, b) ∈ List.zip l1 l2 := by
+  induction l1 generalizing l2 with
+  | nil => simp at ha
+  | cons x r ih =>
+    cases l2 with
+    | nil => simp at hl
+    | cons y s =>
+      rcases List.mem_cons.1 ha with rfl | ha
+      · exact ⟨y, by simp⟩
+      · obtain ⟨b, hb⟩ := ih (by simpa using hl) ha
+        exact ⟨b, by simp [hb]⟩
+
+/-- in a map with pairwise distinct keys an entry is determined by its key -/
+theorem entry_unique {P : Val → Prop} (hP : KeySet P) {ys : Val} (hy : KeysIn P ys)
+    (hd : keysDistinct ys = true) {e1 e2 : Val} (h1 : e1 ∈ ys.toList) (h2 : e2 ∈ ys.toList)
+    (heq : keyEq e1 e2) : e1 = e2 := by
+  induction ys with
+  | scons e r _ ihr =>
+    obtain ⟨k, v, rfl⟩ : ∃ k v, e = .pair k v := exists_pair_of_mem hy.1 (by simp [toList])
+    obtain ⟨pk, hr⟩ := keysIn_scons.1 hy
+    simp only [keysDistinct, Bool.and_eq_true] at hd
+    have hfresh := (keyFresh_iff hr.1).1 hd.1
+    simp only [toList, List.mem_cons] at h1 h2
+    rcases h1 with rfl | h1 <;> rcases h2 with rfl | h2
+    · rfl
+    · have := hfresh e2 h2
+      have heq' : goEq k (ekey e2) = true := heq
+      simp [heq'] at this
+    · have := hfresh e1 h1
+      have heq' : goEq (ekey e1) k = true := heq
+      rw [hP.goEq_symm (hr.2 e1 h1) pk] at heq'
+      simp [heq'] at this
+    · exact ihr hr hd.2 h1 h2
+  | _ => simp [toList] at h1
+
+theorem sizeOf_ekey_le (e : Val) : sizeOf (ekey e) ≤ sizeOf e := by
+  cases e <;> simp [ekey] <;> omega
+
+theorem len_ne_zero {m n : Nat} (t : Int) (h : m ≠ n) :
+    (if (m != n) = true then (if m < n then -1 else 1) else t) ≠ 0 := by
+  simp only [bne_iff_ne, ne_eq, h, not_false_eq_true, if_true]
+  split <;> simp
+
+theorem len_eq {m n : Nat} (t : Int) (h : m = n) :
+    (if (m != n) = true then (if m < n then (-1 : Int) else 1) else t) = t := by
+  simp [h]
+
+/-- the map case of `zeroOK` -/
+theorem zero_iff_map {env : Env} (hf : env.flagsOk = true) {K V : Ty} {xs ys : Val}
+    (hc : canEqual env K = true) (hxs : entriesHaveType env K V xs = true)
+    (hys : entriesHaveType env K V ys = true) (dx : keysDistinct xs = true)
+    (dy : keysDistinct ys = true) (nx : nanFree xs = true) (ny : nanFree ys = true)
+    (hl : xs.slen = ys.slen)
+    (ihk : ∀ e ∈ xs.toList, ZeroOK env (ekey e)) (ihv : ∀ e ∈ xs.toList, ZeroOK env (evalue e)) :
+    cmpEntries (sortEntries xs) (sortEntries ys) = 0 ↔ entriesIn env K V xs ys = true := by
+  have hP := keySet_typed hf hc
+  have kx := keysIn_typed hxs nx
+  have ky := keysIn_typed hys ny
+  have hsx := isEntries_of_entriesHaveType hxs
+  have hsy := isEntries_of_entriesHaveType hys
+  have tx := (entriesHaveType_iff_mem.1 hxs).2
+  have ty := (entriesHaveType_iff_mem.1 hys).2
+  have nx' := (nanFree_iff_mem hsx).1 nx
+  have ny' := (nanFree_iff_mem hsy).1 ny
+  have hlen : (sortEntries xs).toList.length = (sortEntries ys).toList.length := by
+    rw [(sortEntries_perm xs).length_eq, (sortEntries_perm ys).length_eq]; simpa using hl
+  have KE : ∀ e ∈ xs.toList, ∀ e' ∈ ys.toList,
+      (structEq env K (ekey e) (ekey e') = true ↔ keyEq e e') := by
+    intro e he e' he'
+    rw [← ihk e he K (ekey e') (tx e he).1 (ty e' he').1 (kx.2 e he).2 (ky.2 e' he').2,
+      cmpVal_eq_cmpKey hf hc (tx e he).1 (ty e' he').1, hP.eq_iff (kx.2 e he) (ky.2 e' he')]
+    exact Iff.rfl
+  have VE : ∀ e ∈ xs.toList, ∀ e' ∈ ys.toList,
+      (cmpVal (evalue e) (evalue e') = 0 ↔ structEq env V (evalue e) (evalue e') = true) :=
+    fun e he e' he' => ihv e he V (evalue e') (tx e he).2 (ty e' he').2
+      (nanFree_evalue (nx' e he)) (nanFree_evalue (ny' e' he'))
+  rw [cmpEntries_zero_iff_zip hP _ _ kx.sortEntries ky.sortEntries (by simpa using hlen),
+    entriesIn_iff_mem hsx]
+  constructor
+  · intro hz e he
+    obtain ⟨e', hp⟩ := exists_zip_of_mem_left hlen (mem_sortEntries.2 he)
+    have he' := mem_sortEntries.1 (List.of_mem_zip hp).2
+    obtain ⟨h1, h2⟩ := hz _ hp
+    rw [valueAt_iff_mem hsy]
+    exact ⟨e', he', (KE e he e' he').2 h1, (VE e he e' he').1 h2⟩
+  · rintro hin ⟨e, e'⟩ hp
+    have he := mem_sortEntries.1 (List.of_mem_zip hp).1
+    have he' := mem_sortEntries.1 (List.of_mem_zip hp).2
+    have hsub : KeysSub xs.toList ys.toList := fun a ha => by
+      obtain ⟨a', ha', h1, _⟩ := (valueAt_iff_mem hsy).1 (hin a ha)
+      exact ⟨a', ha', (KE a ha a' ha').1 h1⟩
+    have hag := sortEntries_keysAgree hP kx ky dx dy hl hsub
+    have hk : keyEq e e' := forall_zip_of_keysAgreeL _ _ hag _ hp
+    refine ⟨hk, ?_⟩
+    obtain ⟨e'', he'', h1, h2⟩ := (valueAt_iff_mem hsy).1 (hin e he)
+    have hk'' : keyEq e e'' := (KE e he e'' he'').1 h1
+    have h3 : keyEq e' e'' := by
+      have := hP.goEq_symm (kx.2 e he) (ky.2 e' he')
+      exact hP.goEq_trans (ky.2 e' he') (kx.2 e he) (ky.2 e'' he'') (by rw [← this]; exact hk) hk''
+    have := entry_unique hP ky dy he' he'' h3
+    subst this
+    exact (VE e he e' he').2 h2
+
+/-- **`cmpVal x y = 0` exactly when `x` and `y` are structurally equal** -/
+theorem zeroOK {env : Env} (hf : env.flagsOk = true) (x : Val) : ZeroOK env x := by
+  induction hn : sizeOf x using Nat.strongRecOn generalizing x with
+  | _ n IH =>
+  subst hn
+  have ih : ∀ a, sizeOf a < sizeOf x → ZeroOK env a := fun a ha => IH _ ha a rfl
+  intro T y hx hy nx ny
+  rcases hasType_false_of_under hx with ⟨b, hU⟩ | ⟨R, hU⟩ | ⟨E, hU⟩ | ⟨n, E, hU⟩ | ⟨fs, hU⟩ |
+      ⟨K, V, hU⟩
+  · -- basic
+    rw [hasType_basic hU] at hx hy
+    rw [cmpVal_eq_cmpKey_of_basic hx hy, structEq_basic hU, leafEq_eq_goEq_of_basic hx hy]
+    exact cmpKey_eq_zero_iff (keyLike_of_basicHasType hx hy)
+  · -- pointer
+    rcases hasType_ptr hU hx with rfl | ⟨a, v, rfl, hv⟩ <;>
+      rcases hasType_ptr hU hy with rfl | ⟨b, w, rfl, hw⟩
+    · simp [cmpVal_nil_nil, structEq_nil_nil (.inl ⟨R, hU⟩)]
+    · simp [cmpVal_nil_left, structEq_nil_left]
+    · simp [cmpVal_nil_right, structEq_nil_right]
+    · rw [cmpVal_ptr, structEq_ptr hU]
+      exact ih v (by simp; omega) R w hv hw (by simpa [nanFree] using nx)
+        (by simpa [nanFree] using ny)
+  · -- slice
+    rcases hasType_slice hU hx with rfl | ⟨a, sp, xs, rfl, hxs⟩ <;>
+      rcases hasType_slice hU hy with rfl | ⟨b, sp', ys, rfl, hys⟩
+    · simp [cmpVal_nil_nil, structEq_nil_nil (.inr (.inl ⟨E, hU⟩))]
+    · simp [cmpVal_nil_left, structEq_nil_left]
+    · simp [cmpVal_nil_right, structEq_nil_right]
+    · rw [cmpVal_slice, structEq_slice hU]
+      by_cases hl : xs.slen = ys.slen
+      · rw [len_eq _ hl]
+        refine cmpSeq_zero_iff_elems xs (fun a ha => ih a ?_) E ys hxs hys hl
+          (by simpa [nanFree] using nx) (by simpa [nanFree] using ny)
+        have := sizeOf_lt_of_mem ha; simp; omega
+      · constructor
+        · intro h; exact absurd h (len_ne_zero _ hl)
+        · intro h; exact absurd (seqEq_slen _ _ h) hl
+  · -- array
+    obtain ⟨xs, rfl, hlx, hxs⟩ := (hasType_array hU _).1 hx
+    obtain ⟨ys, rfl, hly, hys⟩ := (hasType_array hU _).1 hy
+    rw [cmpVal_arr, structEq_array hU]
+    refine cmpSeq_zero_iff_elems xs (fun a ha => ih a ?_) E ys hxs hys (by omega)
+      (by simpa [nanFree] using nx) (by simpa [nanFree] using ny)
+    have := sizeOf_lt_of_mem ha; simp; omega
+  · -- struct
+    obtain ⟨xs, rfl, hxs⟩ := (hasType_struct hU _).1 hx
+    obtain ⟨ys, rfl, hys⟩ := (hasType_struct hU _).1 hy
+    rw [cmpVal_struct, structEq_struct hU]
+    refine cmpSeq_zero_iff_fields xs (fun a ha => ih a ?_) fs ys hxs hys
+      (by simpa [nanFree] using nx) (by simpa [nanFree] using ny)
+    have := sizeOf_lt_of_mem ha; simp; omega
+  · -- map
+    rcases hasType_map hU hx with rfl | ⟨a, xs, rfl, hc, hxs, dx⟩ <;>
+      rcases hasType_map hU hy with rfl | ⟨b, ys, rfl, _, hys, dy⟩
+    · simp [cmpVal_nil_nil, structEq_nil_nil (.inr (.inr ⟨K, V, hU⟩))]
+    · simp [cmpVal_nil_left, structEq_nil_left]
+    · simp [cmpVal_nil_right, structEq_nil_right]
+    · rw [cmpVal_map, structEq_map hU]
+      simp only [nanFree] at nx ny
+      by_cases hl : xs.slen = ys.slen
+      · rw [len_eq _ hl]
+        have he : (xs.slen == ys.slen) = true := by rw [hl]; exact beq_self_eq_true _
+        rw [he, Bool.true_and]
+        refine zero_iff_map hf hc hxs hys dx dy nx ny hl (fun e he => ih _ ?_) (fun e he => ih _ ?_)
+        · have := sizeOf_lt_of_mem he
+          have := sizeOf_ekey_le e
+          simp; omega
+        · have := sizeOf_lt_of_mem he
+          have := sizeOf_evalue_le e
+          simp; omega
+      · constructor
+        · intro h; exact absurd h (len_ne_zero _ hl)
+        · intro h
+          simp only [Bool.and_eq_true, beq_iff_eq] at h
+          exact absurd h.1 hl
+
+/-! ## context lemmas: the first difference decides -/
+
+theorem slen_sapp (p s : Val) : (p.sapp s).slen = p.slen + s.slen := by
+  induction p with
+  | scons h t _ iht => simp only [Val.sapp, slen, iht]; omega
+  | _ => simp [Val.sapp, slen]
+
+theorem toList_sapp (p s : Val) : (p.sapp s).toList = p.toList ++ s.toList := by
+  induction p with
+  | scons h t _ iht => simp [Val.sapp, toList, iht]
+  | _ => simp [Val.sapp, toList]
+
+/-- sequences: equal-length prefixes that compare 0 are skipped, the first non-zero comparison is
+the result -/
+theorem cmpSeq_sapp (pre : Val) :
+    ∀ (pre' a b r s : Val), pre.slen = pre'.slen → cmpSeq pre pre' = 0 → cmpVal a b ≠ 0 →
+      cmpSeq (pre.sapp (.scons a r)) (pre'.sapp (.scons b s)) = cmpVal a b := by
+  induction pre with
+  | scons h t _ iht =>
+    intro pre' a b r s hl h0 hne
+    cases pre' <;> simp [slen] at hl
+    rename_i h' t'
+    rw [cmpSeq_scons, lex_eq_zero] at h0
+    simp only [Val.sapp, cmpSeq_scons, h0.1, lex_zero]
+    exact iht t' a b r s (by simpa using hl) h0.2 hne
+  | _ =>
+    intro pre' a b r s hl _ hne
+    cases pre' <;> simp [slen] at hl <;> simp only [Val.sapp, cmpSeq_scons, lex_of_ne _ hne]
+
+/-- sorted map entries: equal-length prefixes that compare 0 are skipped; at the first entry whose
+(equal) keys carry values comparing non-zero, that comparison is the result -/
+theorem cmpEntries_sapp (pre : Val) :
+    ∀ (pre' k v k' w r s : Val), isEntries pre = true → isEntries pre' = true →
+      pre.slen = pre'.slen → cmpEntries pre pre' = 0 → goEq k k' = true → cmpVal v w ≠ 0 →
+      cmpEntries (pre.sapp (.scons (.pair k v) r)) (pre'.sapp (.scons (.pair k' w) s)) =
+        cmpVal v w := by
+  induction pre with
+  | scons e t _ iht =>
+    intro pre' k v k' w r s hp hp' hl h0 hg hne
+    cases pre' <;> simp [slen] at hl
+    rename_i e' t'
+    cases e <;> simp [isEntries] at hp
+    cases e' <;> simp [isEntries] at hp'
+    rw [cmpEntries_scons, lex_eq_zero] at h0
+    simp only [Val.sapp, cmpEntries_scons, h0.1, lex_zero]
+    exact iht t' k v k' w r s hp hp' (by simpa using hl) h0.2 hg hne
+  | snil =>
+    intro pre' k v k' w r s _ hp' hl _ hg hne
+    cases pre' <;> simp [slen] at hl <;> simp [isEntries] at hp'
+    simp only [Val.sapp, cmpEntries_scons, hg, if_true, lex_of_ne _ hne]
+  | _ => intro pre' k v k' w r s hp; simp [isEntries] at hp
+
+/-- keys differ first: the key order decides -/
+theorem cmpEntries_sapp_key (pre : Val) :
+    ∀ (pre' k v k' w r s : Val), isEntries pre = true → isEntries pre' = true →
+      pre.slen = pre'.slen → cmpEntries pre pre' = 0 → goEq k k' = false → cmpKey k k' ≠ 0 →
+      cmpEntries (pre.sapp (.scons (.pair k v) r)) (pre'.sapp (.scons (.pair k' w) s)) =
+        cmpKey k k' := by
+  induction pre with
+  | scons e t _ iht =>
+    intro pre' k v k' w r s hp hp' hl h0 hg hne
+    cases pre' <;> simp [slen] at hl
+    rename_i e' t'
+    cases e <;> simp [isEntries] at hp
+    cases e' <;> simp [isEntries] at hp'
+    rw [cmpEntries_scons, lex_eq_zero] at h0
+    simp only [Val.sapp, cmpEntries_scons, h0.1, lex_zero]
+    exact iht t' k v k' w r s hp hp' (by simpa using hl) h0.2 hg hne
+  | snil =>
+    intro pre' k v k' w r s _ hp' hl _ hg hne
+    cases pre' <;> simp [slen] at hl <;> simp [isEntries] at hp'
+    simp only [Val.sapp, cmpEntries_scons, hg, Bool.false_eq_true, if_false, lex_of_ne _ hne]
+  | _ => intro pre' k v k' w r s hp; simp [isEntries] at hp
+
+/-! ## reflexivity (untyped) -/
+
+theorem cmpKey_refl (k : Val) (hk : nanFree k = true) : cmpKey k k = 0 := by
+  induction k with
+  | bool b => simp [cmpKey, cmpBool]
+  | int n => simp [cmpKey, cmpInt]
+  | flt w a => simp only [nanFree, Bool.not_eq_true'] at hk; simp [cmpKey, cmpFlt, fltEq_refl w a hk]
+  | cplx w a b =>
+    simp only [nanFree, Bool.and_eq_true, Bool.not_eq_true'] at hk
+    simp [cmpKey, cmpFlt, fltEq_refl w a hk.1, fltEq_refl w b hk.2]
+  | str s => simp only [cmpKey]; exact cmpBytes_eq_zero.2 rfl
+  | arr xs ih => simp only [cmpKey]; exact ih (by simpa [nanFree] using hk)
+  | struct xs ih => simp only [cmpKey]; exact ih (by simpa [nanFree] using hk)
+  | scons h t ih1 ih2 =>
+    simp only [nanFree, Bool.and_eq_true] at hk
+    rw [cmpKey_scons, ih1 hk.1, ih2 hk.2]; rfl
+  | _ => simp [cmpKey]
+
+theorem nanFree_of_mem {s e : Val} (hs : nanFree s = true) (he : e ∈ s.toList) :
+    nanFree e = true := by
+  induction s with
+  | scons h t _ iht =>
+    simp only [nanFree, Bool.and_eq_true] at hs
+    simp only [toList, List.mem_cons] at he
+    rcases he with rfl | he
+    · exact hs.1
+    · exact iht hs.2 he
+  | _ => simp [toList] at he
+
+theorem cmpSeq_refl (xs : Val) (ih : ∀ a ∈ xs.toList, cmpVal a a = 0) : cmpSeq xs xs = 0 := by
+  induction xs with
+  | scons h t _ iht =>
+    rw [cmpSeq_scons, ih h (by simp [toList]), iht (fun a ha => ih a (by simp [toList, ha]))]; rfl
+  | _ => exact cmpSeq_of_not_scons_left _ (by simp)
+
+theorem cmpEntries_refl (xs : Val) (hn : ∀ e ∈ xs.toList, nanFree e = true)
+    (ih : ∀ e ∈ xs.toList, cmpVal (evalue e) (evalue e) = 0) : cmpEntries xs xs = 0 := by
+  induction xs with
+  | scons e t _ iht =>
+    rcases entry_cases (.scons e t) with ⟨k, v, r, h⟩ | h
+    · cases h
+      have h1 := ih (.pair k v) (by simp [toList])
+      have h2 := hn (.pair k v) (by simp [toList])
+      simp only [evalue] at h1
+      simp only [nanFree, Bool.and_eq_true] at h2
+      rw [cmpEntries_scons, h1, cmpKey_refl k h2.1,
+        iht (fun a ha => hn a (by simp [toList, ha])) (fun a ha => ih a (by simp [toList, ha]))]
+      simp
+    · exact cmpEntries_of_not_entry_left _ h
+  | _ => exact cmpEntries_of_not_entry_left _ (by simp)
+
+/-- every NaN-free value compares 0 with itself (no typing needed) -/
+theorem cmpVal_refl (x : Val) (nx : nanFree x = true) : cmpVal x x = 0 := by
+  induction hn : sizeOf x using Nat.strongRecOn generalizing x with
+  | _ n IH =>
+  subst hn
+  have ih : ∀ a, sizeOf a < sizeOf x → nanFree a = true → cmpVal a a = 0 :=
+    fun a ha na => IH _ ha a na rfl
+  cases x with
+  | bool b => simp [cmpVal_bool, cmpBool]
+  | int n => simp [cmpVal_int, cmpInt]
+  | flt w a =>
+    simp only [nanFree, Bool.not_eq_true'] at nx; simp [cmpVal_flt, cmpFlt, fltEq_refl w a nx]
+  | cplx w a b =>
+    simp only [nanFree, Bool.and_eq_true, Bool.not_eq_true'] at nx
+    simp [cmpVal_cplx, cmpFlt, fltEq_refl w a nx.1, fltEq_refl w b nx.2]
+  | str s => rw [cmpVal_str]; exact cmpBytes_eq_zero.2 rfl
+  | nilv => exact cmpVal_nil_nil
+  | ptr a v => rw [cmpVal_ptr]; exact ih v (by simp; omega) (by simpa [nanFree] using nx)
+  | slice a sp xs =>
+    simp only [nanFree] at nx
+    rw [cmpVal_slice, len_eq _ rfl]
+    refine cmpSeq_refl xs (fun e he => ih e ?_ (nanFree_of_mem nx he))
+    have := sizeOf_lt_of_mem he; simp; omega
+  | arr xs =>
+    simp only [nanFree] at nx
+    rw [cmpVal_arr]
+    refine cmpSeq_refl xs (fun e he => ih e ?_ (nanFree_of_mem nx he))
+    have := sizeOf_lt_of_mem he; simp; omega
+  | struct xs =>
+    simp only [nanFree] at nx
+    rw [cmpVal_struct]
+    refine cmpSeq_refl xs (fun e he => ih e ?_ (nanFree_of_mem nx he))
+    have := sizeOf_lt_of_mem he; simp; omega
+  | map a xs =>
+    simp only [nanFree] at nx
+    rw [cmpVal_map, len_eq _ rfl]
+    refine cmpEntries_refl _ (fun e he => nanFree_of_mem nx (mem_sortEntries.1 he))
+      (fun e he => ih _ ?_ (nanFree_evalue (nanFree_of_mem nx (mem_sortEntries.1 he))))
+    have := sizeOf_lt_of_mem (mem_sortEntries.1 he)
+    have := sizeOf_evalue_le e
+    simp; omega
+  | pair k v => rw [cmpVal.eq_def]
+  | snil => rw [cmpVal.eq_def]
+  | scons h t => rw [cmpVal.eq_def]
+
+/-! ## replacing a single component -/
+
+/-- replacing one element of a sequence: the earlier (identical, NaN-free) elements compare 0 -/
+theorem cmpSeq_replace (pre a b r s : Val) (np : nanFree pre = true) (hne : cmpVal a b ≠ 0) :
+    cmpSeq (pre.sapp (.scons a r)) (pre.sapp (.scons b s)) = cmpVal a b :=
+  cmpSeq_sapp pre pre a b r s rfl
+    (cmpSeq_refl pre (fun e he => cmpVal_refl e (nanFree_of_mem np he))) hne
+
+/-- the two entry spines differ exactly in the value stored at one position (key `k`) -/
+inductive OneDiff (k v w : Val) : Val → Val → Prop
+  | here (r : Val) : OneDiff k v w (.scons (.pair k v) r) (.scons (.pair k w) r)
+  | there (e r r' : Val) : OneDiff k v w r r' → OneDiff k v w (.scons e r) (.scons e r')
+
+theorem OneDiff.sapp {k v w : Val} (p q : Val) :
+    OneDiff k v w (p.sapp (.scons (.pair k v) q)) (p.sapp (.scons (.pair k w) q)) := by
+  induction p with
+  | scons h t _ iht => exact .there _ _ _ iht
+  | _ => exact .here _
+
+theorem OneDiff.slen {k v w s s' : Val} (h : OneDiff k v w s s') : s.slen = s'.slen := by
+  induction h with
+  | here r => rfl
+  | there e r r' _ ih => simp only [Val.slen, ih]
+
+theorem OneDiff.isEntries {k v w s s' : Val} (h : OneDiff k v w s s') :
+    isEntries s' = isEntries s := by
+  induction h with
+  | here r => rfl
+  | there e r r' _ ih => cases e <;> simp [Goderive.isEntries, ih]
+
+/-- inserting the same entry on both sides -/
+theorem OneDiff.insert_same {k v w s s' : Val} (e : Val) (h : OneDiff k v w s s') :
+    OneDiff k v w (insertEntry e s) (insertEntry e s') := by
+  induction h with
+  | here r =>
+    by_cases he : ∃ k' v', e = .pair k' v'
+    · obtain ⟨k', v', rfl⟩ := he
+      rw [insertEntry_pair_scons, insertEntry_pair_scons]
+      split
+      · exact .there _ _ _ (.here r)
+      · exact .here _
+    · rw [insertEntry_of_not_pair_left _ _ _ (fun a b h => he ⟨a, b, h⟩),
+        insertEntry_of_not_pair_left _ _ _ (fun a b h => he ⟨a, b, h⟩)]
+      exact .there _ _ _ (.here r)
+  | there e' r r' h' ih =>
+    by_cases he : ∃ k' v', e = .pair k' v'
+    · obtain ⟨k', v', rfl⟩ := he
+      by_cases he' : ∃ k'' v'', e' = .pair k'' v''
+      · obtain ⟨k'', v'', rfl⟩ := he'
+        rw [insertEntry_pair_scons, insertEntry_pair_scons]
+        split
+        · exact .there _ _ _ (.there _ _ _ h')
+        · exact .there _ _ _ ih
+      · rw [insertEntry_of_not_pair_right _ _ _ (fun a b h => he' ⟨a, b, h⟩),
+          insertEntry_of_not_pair_right _ _ _ (fun a b h => he' ⟨a, b, h⟩)]
+        exact .there _ _ _ (.there _ _ _ h')
+    · rw [insertEntry_of_not_pair_left _ _ _ (fun a b h => he ⟨a, b, h⟩),
+        insertEntry_of_not_pair_left _ _ _ (fun a b h => he ⟨a, b, h⟩)]
+      exact .there _ _ _ (.there _ _ _ h')
+
+/-- inserting the two versions of the entry into the same spine -/
+theorem OneDiff.insert_diff (k v w s : Val) :
+    OneDiff k v w (insertEntry (.pair k v) s) (insertEntry (.pair k w) s) := by
+  induction s with
+  | scons h t _ iht =>
+    by_cases hh : ∃ k' v', h = .pair k' v'
+    · obtain ⟨k', v', rfl⟩ := hh
+      rw [insertEntry_pair_scons, insertEntry_pair_scons]
+      split
+      · exact .here _
+      · exact .there _ _ _ iht
+    · rw [insertEntry_of_not_pair_right _ _ _ (fun a b h => hh ⟨a, b, h⟩),
+        insertEntry_of_not_pair_right _ _ _ (fun a b h => hh ⟨a, b, h⟩)]
+      exact .here _
+  | _ => simp only [insertEntry]; exact .here _
+
+/-- sorting only looks at keys: the sorted spines still differ in exactly that one value -/
+theorem OneDiff.sortEntries {k v w s s' : Val} (h : OneDiff k v w s s') :
+    OneDiff k v w (sortEntries s) (sortEntries s') := by
+  induction h with
+  | here r => simp only [Goderive.sortEntries]; exact OneDiff.insert_diff k v w _
+  | there e r r' _ ih => simp only [Goderive.sortEntries]; exact ih.insert_same e
+
+theorem cmpEntries_oneDiff {k v w s s' : Val} (h : OneDiff k v w s s')
+    (hs : isEntries s = true) (ns : nanFree s = true) (hk : goEq k k = true)
+    (hne : cmpVal v w ≠ 0) : cmpEntries s s' = cmpVal v w := by
+  induction h with
+  | here r => rw [cmpEntries_scons, hk, if_pos rfl, lex_of_ne _ hne]
+  | there e r r' _ ih =>
+    cases e <;> simp [Goderive.isEntries] at hs
+    rename_i k' v'
+    simp only [nanFree, Bool.and_eq_true] at ns
+    rw [cmpEntries_scons, cmpVal_refl v' ns.1.2, cmpKey_refl k' ns.1.1, ih hs ns.2]
+    simp
+
+/-- **replacing the value stored under one key of a map**: the maps compare like the two values -/
+theorem cmpVal_map_replace (a b : Nat) (p q k v w : Val)
+    (hs : isEntries (p.sapp (.scons (.pair k v) q)) = true)
+    (ns : nanFree (p.sapp (.scons (.pair k v) q)) = true) (hk : goEq k k = true)
+    (hne : cmpVal v w ≠ 0) :
+    cmpVal (.map a (p.sapp (.scons (.pair k v) q))) (.map b (p.sapp (.scons (.pair k w) q)))
+      = cmpVal v w := by
+  have h := OneDiff.sapp (k := k) (v := v) (w := w) p q
+  rw [cmpVal_map, len_eq _ h.slen]
+  exact cmpEntries_oneDiff h.sortEntries (isEntries_sortEntries hs)
+    (nanFree_sortEntries hs ns) hk hne
+
+/-! ## byte-wise string order -/
+
+theorem cmpBytes_append_diff (p : List Nat) (x y : Nat) (r s : List Nat) (h : x ≠ y) :
+    cmpBytes (p ++ x :: r) (p ++ y :: s) = if x < y then -1 else 1 := by
+  induction p with
+  | nil => simp [cmpBytes, h]
+  | cons c p ih => simpa [cmpBytes] using ih
+
+theorem cmpBytes_prefix (p : List Nat) (y : Nat) (s : List Nat) :
+    cmpBytes p (p ++ y :: s) = -1 := by
+  induction p with
+  | nil => simp [cmpBytes]
+  | cons c p ih => simpa [cmpBytes] using ih
+
+theorem cmpFlt_of_lt {w a b : Nat} (h : fltLt w a b = true) : cmpFlt w a b = -1 := by
+  simp only [fltLt, Bool.and_eq_true, Bool.not_eq_true', decide_eq_true_eq] at h
+  have : fltEq w a b = false := by
+    simp only [fltEq, h.1.1, h.1.2, Bool.not_false, Bool.true_and, beq_eq_false_iff_ne, ne_eq]
+    omega
+  simp [cmpFlt, this, fltLt, h]
+
+theorem cmpFlt_of_gt {w a b : Nat} (h : fltLt w b a = true) : cmpFlt w a b = 1 := by
+  simp only [fltLt, Bool.and_eq_true, Bool.not_eq_true', decide_eq_true_eq] at h
+  have h1 : fltEq w a b = false := by
+    simp only [fltEq, h.1.1, h.1.2, Bool.not_false, Bool.true_and, beq_eq_false_iff_ne, ne_eq]
+    omega
+  have h2 : fltLt w a b = false := by
+    simp only [fltLt, h.1.1, h.1.2, Bool.not_false, Bool.true_and, decide_eq_false_iff_not]
+    omega
+  simp [cmpFlt, h1, h2]
+
+/-! ## evaluation lemmas (for closed examples) -/
+
+theorem under_under {env : Env} {T : Ty} (h : (env.under T).isNamed = false) :
+    env.under (env.under T) = env.under T := by
+  generalize env.under T = U at h
+  cases U <;> simp_all [Env.under, Ty.isNamed]
+
+theorem hasType_eval_named (env : Env) (i : Nat) (v : Val)
+    (h : (env.under (.named i)).isNamed = false) :
+    hasType env (.named i) v = hasType env (env.under (.named i)) v := by
+  rw [hasType.eq_def, hasType.eq_def (T := env.under (.named i)), under_under h]
+
+theorem hasType_eval_basic (env : Env) (b : Basic) (v : Val) :
+    hasType env (.basic b) v = basicHasType b v := hasType_basic rfl v
+
+theorem hasType_eval_ptr_nil (env : Env) (R : Ty) : hasType env (.ptr R) .nilv = true := by
+  rw [hasType.eq_def]; rfl
+
+theorem hasType_eval_ptr (env : Env) (R : Ty) (a : Nat) (v : Val) :
+    hasType env (.ptr R) (.ptr a v) = hasType env R v := by
+  rw [hasType.eq_def]; rfl
+
+theorem hasType_eval_slice_nil (env : Env) (E : Ty) : hasType env (.slice E) .nilv = true := by
+  rw [hasType.eq_def]; rfl
+
+theorem hasType_eval_slice (env : Env) (E : Ty) (a sp : Nat) (xs : Val) :
+    hasType env (.slice E) (.slice a sp xs) = allHaveType env E xs := by
+  rw [hasType.eq_def]; rfl
+
+theorem hasType_eval_array (env : Env) (n : Nat) (E : Ty) (xs : Val) :
+    hasType env (.array n E) (.arr xs) = (xs.slen == n && allHaveType env E xs) := by
+  rw [hasType.eq_def]; rfl
+
+theorem hasType_eval_struct (env : Env) (fs : Ty) (xs : Val) :
+    hasType env (.struct fs) (.struct xs) = fieldsHaveType env fs xs := by
+  rw [hasType.eq_def]; rfl
+
+theorem hasType_eval_map_nil (env : Env) (K V : Ty) : hasType env (.map K V) .nilv = true := by
+  rw [hasType.eq_def]; rfl
+
+theorem hasType_eval_map (env : Env) (K V : Ty) (a : Nat) (es : Val) :
+    hasType env (.map K V) (.map a es) =
+      (canEqual env K && entriesHaveType env K V es && keysDistinct es) := by
+  rw [hasType.eq_def]; rfl
+
+theorem structEq_eval_named (env : Env) (i : Nat) (x y : Val)
+    (h : (env.under (.named i)).isNamed = false) :
+    structEq env (.named i) x y = structEq env (env.under (.named i)) x y := by
+  rw [structEq.eq_def, structEq.eq_def (T := env.under (.named i)), under_under h]
+
+theorem structEq_eval_basic (env : Env) (b : Basic) (x y : Val) :
+    structEq env (.basic b) x y = leafEq x y := structEq_basic rfl x y
+
+theorem structEq_eval_ptr (env : Env) (R : Ty) (a : Nat) (v : Val) (b : Nat) (w : Val) :
+    structEq env (.ptr R) (.ptr a v) (.ptr b w) = structEq env R v w := structEq_ptr rfl ..
+
+theorem structEq_eval_ptr_nil (env : Env) (R : Ty) : structEq env (.ptr R) .nilv .nilv = true :=
+  structEq_nil_nil (.inl ⟨R, rfl⟩)
+
+theorem structEq_eval_slice (env : Env) (E : Ty) (a sp : Nat) (xs : Val) (b sp' : Nat) (ys : Val) :
+    structEq env (.slice E) (.slice a sp xs) (.slice b sp' ys) = seqEq env E xs ys :=
+  structEq_slice rfl ..
+
+theorem structEq_eval_slice_nil (env : Env) (E : Ty) :
+    structEq env (.slice E) .nilv .nilv = true :=
+  structEq_nil_nil (.inr (.inl ⟨E, rfl⟩))
+
+theorem structEq_eval_array (env : Env) (n : Nat) (E : Ty) (xs ys : Val) :
+    structEq env (.array n E) (.arr xs) (.arr ys) = seqEq env E xs ys := structEq_array rfl ..
+
+theorem structEq_eval_struct (env : Env) (fs : Ty) (xs ys : Val) :
+    structEq env (.struct fs) (.struct xs) (.struct ys) = fieldsEq env fs xs ys :=
+  structEq_struct rfl ..
+
+theorem structEq_eval_map (env : Env) (K V : Ty) (a : Nat) (xs : Val) (b : Nat) (ys : Val) :
+    structEq env (.map K V) (.map a xs) (.map b ys) =
+      (xs.slen == ys.slen && entriesIn env K V xs ys) := structEq_map rfl ..
+
+theorem structEq_eval_map_nil (env : Env) (K V : Ty) :
+    structEq env (.map K V) .nilv .nilv = true :=
+  structEq_nil_nil (.inr (.inr ⟨K, V, rfl⟩))
+
+/-- evaluate `hasType` on closed terms (give the definitions of the data to unfold) -/
+syntax "ty_eval" (" [" Lean.Parser.Tactic.simpLemma,* "]")? : tactic
+macro_rules
+  | `(tactic| ty_eval [$ls,*]) => `(tactic|
+      set_option linter.unusedSimpArgs false in
+      simp [$ls,*, hasType_eval_named, hasType_eval_basic, hasType_eval_ptr_nil, hasType_eval_ptr,
+        hasType_eval_slice_nil, hasType_eval_slice, hasType_eval_array, hasType_eval_struct,
+        hasType_eval_map_nil, hasType_eval_map, Env.under, Env.decl?, Ty.isNamed, basicHasType,
+        intInRange, canEqual, keysDistinct, keyFresh, goEq, Val.slen])
+
+/-- evaluate `cmpVal` / `structEq` on closed terms (give the definitions of the data to unfold) -/
+syntax "cmp_eval" (" [" Lean.Parser.Tactic.simpLemma,* "]")? : tactic
+macro_rules
+  | `(tactic| cmp_eval [$ls,*]) => `(tactic|
+      set_option linter.unusedSimpArgs false in
+      simp [$ls,*, cmpVal_struct, cmpSeq_scons, cmpSeq_snil, cmpVal_int, cmpVal_ptr, cmpVal_slice,
+        cmpVal_str, cmpVal_map, cmpVal_cplx, cmpVal_bool, cmpVal_arr, cmpVal_flt, cmpVal_nil_nil,
+        cmpVal_nil_left, cmpVal_nil_right, cmpEntries_scons, cmpEntries_snil, lex, cmpInt, cmpBytes,
+        cmpBool, cmpFlt, fltEq, fltLt, fltIsNaN, fltKey, fltExp, fltMant, fltMag, fltSign, mantBits,
+        expBits, sortEntries, insertEntry, cmpKey, goEq, Val.slen, Val.sapp, isEntries, nanFree,
+        structEq_eval_named, structEq_eval_basic, structEq_eval_ptr, structEq_eval_ptr_nil,
+        structEq_eval_slice, structEq_eval_slice_nil, structEq_eval_array, structEq_eval_struct,
+        structEq_eval_map, structEq_eval_map_nil, structEq_nil_left, structEq_nil_right,
+        seqEq_scons, seqEq_snil, fieldsEq_cons, fieldsEq_nil, entriesIn_scons, entriesIn_snil,
+        valueAt_scons, valueAt_snil, leafEq, Env.under, Env.decl?, Ty.isNamed])
 
 end Cmp
 end Goderive
